@@ -314,6 +314,8 @@ class Stats:
         self.hashseed_runs = 0
         self.hashseed_differs = 0
         self.tool_lines = set()
+        self.concurrent = 0
+        self.concurrent_outcomes = {}
         self.sessions = 0
         self.session_invocations = 0
         self.session_outcomes = {}
@@ -479,7 +481,9 @@ def run_campaign(tier, seed, jobs, only_runs=None):
         # sweep variants and the hash-seed sweep are submitted as soon as their twins are done.
         splans = _plan.session_plans(tree, seed, tier) + _plan.crash_sweep_sessions(tree, seed, tier)
         hcases = _plan.header_alone_cases(tree, seed, tier)
+        cplans = _plan.concurrent_plans(tree, seed, tier)
         if only_runs:
+            cplans = [p for p in cplans if str(p["run"]) in only_runs]
             splans = [p for p in splans if str(p["run"]) in only_runs]
             hcases = [c for c in hcases if c["run"] in only_runs]
 
@@ -497,6 +501,20 @@ def run_campaign(tier, seed, jobs, only_runs=None):
             if srec.get("harness_error"):
                 harness_errors.append(srec["harness_error"])
             return [srec]
+
+        def do_concurrent(cp):
+            crec = _check.evaluate_concurrent(ctx, cp)
+            crec["_case"] = cp
+            with stats.lock:
+                stats.concurrent += 1
+                for st in crec["steps"]:
+                    for k, v in (st.get("probes") or {}).items():
+                        stats.bump(stats.probes, k, v)
+                    if st.get("outcome"):
+                        stats.bump(stats.concurrent_outcomes, st["outcome"])
+            if crec.get("harness_error"):
+                harness_errors.append(crec["harness_error"])
+            return [crec]
 
         def do_header(c):
             ev = _check.evaluate_case(ctx, c)
@@ -544,7 +562,7 @@ def run_campaign(tier, seed, jobs, only_runs=None):
         with ThreadPoolExecutor(jobs) as ex:
             futs = {ix: ex.submit(process, ix) for ix in order}
             sess_f = [ex.submit(do_session, sp) for sp in splans]
-            head_f = [ex.submit(do_header, c) for c in hcases]
+            head_f = [ex.submit(do_header, c) for c in hcases] + [ex.submit(do_concurrent, cp) for cp in cplans]
             sweep_ix = [i for i, p in enumerate(plans) if is_sweep(p)]
             for ix in sweep_ix:
                 futs[ix].result()
@@ -566,8 +584,8 @@ def run_campaign(tier, seed, jobs, only_runs=None):
                 records[ix].extend(f.result() for f in fl)
             for f in sess_f + head_f:
                 records.append(f.result())
-        say("  %d plans, %d sweep variants, hash-seed sweep %d interpreters (%d with different bytes), %d sessions / %d invocations, %d stand-alone header compiles (%.0f s)" % (
-            len(plans), stats.sweep_variants, stats.hashseed_runs, stats.hashseed_differs, stats.sessions, stats.session_invocations, stats.header_alone, _perf() - t0))
+        say("  %d plans, %d sweep variants, hash-seed sweep %d interpreters (%d with different bytes), %d sessions / %d invocations, %d concurrent interleavings, %d stand-alone header compiles (%.0f s)" % (
+            len(plans), stats.sweep_variants, stats.hashseed_runs, stats.hashseed_differs, stats.sessions, stats.session_invocations, stats.concurrent, stats.header_alone, _perf() - t0))
         stats.sim_runs = ctx.pool.runs
 
         if harness_errors:
@@ -712,7 +730,7 @@ def replay(path, as_json=False, jobs=4):
         doc = json.load(f)
     scratch = Scratch()
     case = doc["case"]
-    seeds = {case.get("hashseed", 0)} | {inv.get("hashseed", 0) for inv in case.get("session", [])}
+    seeds = {case.get("hashseed", 0)} | {inv.get("hashseed", 0) for inv in case.get("session", []) + case.get("concurrent", [])}
     ctx = make_context(jobs, scratch, hashseeds=tuple(sorted(seeds)))
     ctx.step_budget = int(doc.get("step_budget") or ctx.step_budget)
     ctx.event_cap = int(doc.get("event_cap") or ctx.event_cap)
@@ -800,6 +818,7 @@ def write_evidence(tier, seed, t0, ctx, stats, cov, det, exitm, reported, known_
             "standalone_header_compiles": stats.header_alone,
             "hashseed_sweep": {"interpreters": stats.hashseed_runs, "with_different_bytes": stats.hashseed_differs},
             "tool_line_coverage": tool_line_coverage(stats),
+            "concurrent_pairs": {"interleavings": stats.concurrent, "outcomes": dict(sorted(stats.concurrent_outcomes.items()))},
             "sessions": {"sessions": stats.sessions, "invocations": stats.session_invocations, "outcomes": dict(sorted(stats.session_outcomes.items()))},
             "runs_per_hour": int(runs / wall * 3600) if wall > 0 else 0,
             "builds": ctx.builder.n_builds,
